@@ -503,7 +503,8 @@ theorem reconcileOld_facts (s : State) (l : List RS) (nw : RS) (hok : ∀ r ∈ 
     sumSpec l - sumSpec (reconcileOld s l nw).2.1 ≤
       unhealthy l + max 0 (sumAvail l + nw.avail - (s.replicas - maxUnavailV s)) ∧
     sumBy keptAvail l - max 0 (sumAvail l + nw.avail - (s.replicas - maxUnavailV s))
-      ≤ sumBy keptAvail (reconcileOld s l nw).2.1 := by
+      ≤ sumBy keptAvail (reconcileOld s l nw).2.1 ∧
+    sumSpec (reconcileOld s l nw).2.1 ≤ max (sumSpec l) (s.replicas - max (limit s) nw.spec) := by
   have a1 := sumBy_active_inactive (·.spec) l
   have a2 := sumBy_active_inactive (·.avail) l
   have a3 := sumBy_active_inactive (·.pods) l
@@ -519,7 +520,7 @@ theorem reconcileOld_facts (s : State) (l : List RS) (nw : RS) (hok : ∀ r ∈ 
     have : sumSpec (active l) = 0 := by simpa using h
     dsimp only
     simp only [sumSpec, sumAvail] at *
-    refine ⟨trivial, trivial, ?_, ?_, ?_, ?_⟩ <;> omega
+    refine ⟨trivial, trivial, ?_, ?_, ?_, ?_, ?_⟩ <;> omega
   · rename_i h
     have hne : sumSpec (active l) ≠ 0 := by simpa using h
     split
@@ -533,7 +534,7 @@ theorem reconcileOld_facts (s : State) (l : List RS) (nw : RS) (hok : ∀ r ∈ 
       split
       · dsimp only
         simp only [scaleDownLimitForOld, sumSpec, sumAvail] at *
-        refine ⟨trivial, trivial, ?_, ?_, ?_, ?_⟩ <;> omega
+        refine ⟨trivial, trivial, ?_, ?_, ?_, ?_, ?_⟩ <;> omega
       · rename_i hm
         have c := cleanup_facts s (active l)
           (min (sumSpec l + nw.spec - (s.replicas - maxUnavailV s) - (nw.spec - nw.avail))
@@ -1410,5 +1411,256 @@ theorem inv_post (s : State) (h : inv s = true) : inv (post s) = true := by
           · exfalso; apply hsc
             simp only [inScope, Bool.and_eq_true, Bool.not_eq_true']
             exact ⟨⟨by simpa using hd, by simpa using hp⟩, by simpa using he⟩)
+
+
+/-! ### progress (used for convergence) -/
+
+theorem scaleDownLoop_exact (s : State) (c : Int) : ∀ (l : List RS) (total : Int),
+    (∀ r ∈ l, 0 ≤ r.spec) → total ≤ c →
+    (scaleDownLoop s c l total).err = false ∧
+    sumSpec l - sumSpec (scaleDownLoop s c l total).olds = min (c - total) (sumSpec l) := by
+  intro l
+  induction l with
+  | nil => intro total _ _; simp [scaleDownLoop, sumSpec]; omega
+  | cons r rest ih =>
+    intro total h ht
+    have hr := h r (by simp)
+    have hrest : ∀ x ∈ rest, 0 ≤ x.spec := fun x hx => h x (by simp [hx])
+    have hsum : 0 ≤ sumSpec rest := sumBy_nonneg _ _ hrest
+    simp only [scaleDownLoop]
+    split
+    · simp only [sumSpec, sumBy_cons] at *; refine ⟨trivial, ?_⟩; omega
+    · split
+      · rename_i h0
+        have h0' : r.spec = 0 := by simpa using h0
+        have := ih total hrest ht
+        simp only [sumSpec, sumBy_cons] at *
+        refine ⟨this.1, ?_⟩; omega
+      · split
+        · omega
+        · have := ih (total + min r.spec (c - total)) hrest (by omega)
+          simp only [sumSpec, sumBy_cons, scaleAndRecord_spec] at *
+          refine ⟨this.1, ?_⟩; omega
+
+theorem cleanupLoop_healthy (s : State) (m : Int) : ∀ (l : List RS) (total : Int),
+    (∀ r ∈ l, r.spec = r.avail) →
+    (cleanupLoop s m l total).olds = l ∧ (cleanupLoop s m l total).err = false := by
+  intro l
+  induction l with
+  | nil => intro total _; simp [cleanupLoop]
+  | cons r rest ih =>
+    intro total h
+    have hr := h r (by simp)
+    have hrest : ∀ x ∈ rest, x.spec = x.avail := fun x hx => h x (by simp [hx])
+    have := ih total hrest
+    simp only [cleanupLoop]
+    split
+    · exact ⟨rfl, rfl⟩
+    · split
+      · simp only [this.1, this.2]; exact ⟨trivial, trivial⟩
+      · split
+        · simp only [this.1, this.2]; exact ⟨trivial, trivial⟩
+        · rename_i h1 h2 h3
+          exact absurd (by simpa using hr) h3
+
+theorem sumAvail_eq_sumSpec (l : List RS) (h : ∀ r ∈ l, r.spec = r.avail) : sumAvail l = sumSpec l := by
+  induction l with
+  | nil => rfl
+  | cons r rs ih =>
+    have := h r (by simp)
+    have := ih (fun x hx => h x (by simp [hx]))
+    simp only [sumAvail, sumSpec, sumBy_cons] at *; omega
+
+theorem scaleDownOld_exact (s : State) (l : List RS) (nw : RS) (hs : ∀ r ∈ l, 0 ≤ r.spec)
+    (hA : 0 < sumAvail l + nw.avail - (s.replicas - maxUnavailV s))
+    (hL : 0 ≤ scaleDownLimitForOld s l nw.spec) :
+    (scaleDownOld s l nw).err = false ∧
+    sumSpec l - sumSpec (scaleDownOld s l nw).olds =
+      min (min (sumAvail l + nw.avail - (s.replicas - maxUnavailV s)) (scaleDownLimitForOld s l nw.spec)) (sumSpec l) := by
+  unfold scaleDownOld
+  simp only []
+  split
+  · omega
+  · have hl : scaleDownLimitForOld s (sortBy bySmallerRevision l) nw.spec = scaleDownLimitForOld s l nw.spec := by
+      simp only [scaleDownLimitForOld, sumSpec, sumBy_sortBy]
+    rw [hl]
+    have := scaleDownLoop_exact s
+      (min (sumAvail l + nw.avail - (s.replicas - maxUnavailV s)) (scaleDownLimitForOld s l nw.spec))
+      (sortBy bySmallerRevision l) 0 (all_sortBy hs) (by omega)
+    simp only [sumSpec, sumBy_sortBy] at *
+    refine ⟨this.1, ?_⟩; omega
+
+/-- in a settled state, with nothing reserved for the old RSs and a positive availability budget,
+    `reconcileOldReplicaSets` removes at least one old pod -/
+theorem reconcileOld_progress (s : State) (l : List RS) (nw : RS) (hok : ∀ r ∈ l, rsOk r = true)
+    (hset : ∀ r ∈ l, r.spec = r.avail) (hnw : nw.avail = nw.spec)
+    (hpos : 0 < sumSpec l)
+    (hres : s.replicas - max (limit s) nw.spec ≤ 0)
+    (hM : 1 ≤ sumSpec l + nw.spec - (s.replicas - maxUnavailV s)) :
+    sumSpec (reconcileOld s l nw).2.1 < sumSpec l := by
+  have a1 := sumBy_active_inactive (·.spec) l
+  have i0 := sumSpec_inactive_zero l (fun r hr => ((rsOk_iff r).mp (hok r hr)).1)
+  have hact : ∀ r ∈ active l, 0 ≤ r.spec := fun r hr => ((rsOk_iff r).mp (hok r (mem_active hr))).1
+  have hsetA : ∀ r ∈ active l, r.spec = r.avail := fun r hr => hset r (mem_active hr)
+  have hav := sumAvail_eq_sumSpec (active l) hsetA
+  unfold reconcileOld
+  simp only []
+  split
+  · rename_i h
+    have : sumSpec (active l) = 0 := by simpa using h
+    simp only [sumSpec] at *; omega
+  · split
+    · rename_i hlim
+      simp only [scaleDownLimitForOld, sumSpec] at *; omega
+    · split
+      · rename_i hm
+        simp only [scaleDownLimitForOld, sumSpec] at *; omega
+      · have hc := cleanupLoop_healthy s
+          (min (sumSpec l + nw.spec - (s.replicas - maxUnavailV s) - (nw.spec - nw.avail))
+            (scaleDownLimitForOld s (active l) nw.spec))
+          (sortBy byCreation (active l)) 0 (all_sortBy hsetA)
+        simp only [cleanup, hc.1, hc.2, Bool.false_eq_true, if_false]
+        have hd := scaleDownOld_exact s (sortBy byCreation (active l)) nw (all_sortBy hact)
+          (by simp only [sumAvail, sumBy_sortBy] at *; simp only [sumSpec, sumAvail] at *; omega)
+          (by simp only [scaleDownLimitForOld, sumSpec, sumBy_sortBy] at *; omega)
+        simp only [hd.1, Bool.false_eq_true, if_false]
+        have hd2 := hd.2
+        simp only [scaleDownLimitForOld, sumSpec, sumAvail, sumBy_sortBy, sumBy_append] at *
+        omega
+
+
+theorem newTarget_between (s : State) (o n : Int) (hl : limit s ≤ s.replicas) :
+    min n s.replicas ≤ newTarget s o n ∧ newTarget s o n ≤ max n s.replicas := by
+  refine ⟨newTarget_ge s o n hl, ?_⟩
+  unfold newTarget
+  split
+  · omega
+  · split
+    · omega
+    · by_cases h : o + n > n
+      · have := newRSNewReplicas_ge s (o + n) n h hl; omega
+      · rw [newRSNewReplicas_default s _ _ h]; omega
+
+/-- when the new RS is below a covering limit and still is not raised, the surge budget is used up -/
+theorem newRSNewReplicas_stuck (s : State) (cur n : Int) (hc : cur > n) (hl : n < limit s)
+    (hR : limit s ≤ s.replicas) (h : newRSNewReplicas s cur n = n) : s.replicas + maxSurgeV s ≤ cur := by
+  unfold newRSNewReplicas at h
+  simp only [hc, if_true] at h
+  split at h
+  · omega
+  · split at h
+    · omega
+    · omega
+
+theorem live_budget (s : State) (h : inv s = true) (hl : cfgLive s = true) (hR : 1 ≤ s.replicas) :
+    1 ≤ maxSurgeV s + maxUnavailV s := by
+  simp only [cfgLive, Bool.and_eq_true] at hl
+  obtain ⟨hroll, hsome⟩ := hl
+  cases hr : resolveFenceposts s.maxSurge s.maxUnavailable s.replicas with
+  | none => rw [hr] at hsome; simp at hsome
+  | some p =>
+    obtain ⟨a, u⟩ := p
+    have hn := fenceposts_nonneg s h hr
+    have hsum : 1 ≤ a + u := by
+      unfold resolveFenceposts at hr
+      generalize scaled (s.maxSurge.getD (.int 0)) s.replicas true = x at *
+      generalize scaled (s.maxUnavailable.getD (.int 0)) s.replicas false = y at *
+      obtain ⟨x1, x2⟩ := x
+      obtain ⟨y1, y2⟩ := y
+      simp only [] at hr
+      split at hr
+      · cases hr
+      · split at hr
+        · cases hr
+        · split at hr
+          · cases hr; omega
+          · rename_i hz
+            cases hr
+            simp only [Bool.and_eq_true, beq_iff_eq, not_and] at hz
+            omega
+    have hz : ¬ s.replicas = 0 := by omega
+    simp only [maxSurgeV, maxUnavailV, hroll, hr, Bool.not_true, Bool.false_eq_true, if_false,
+      Bool.false_or, beq_iff_eq, hz]
+    split <;> omega
+
+
+/-! ### the variant -/
+
+theorem settled_elim (s : State) (h : settled s = true) :
+    (∀ r ∈ s.olds, r.spec = r.avail) ∧ (∀ r, s.new = some r → r.avail = r.spec) := by
+  simp only [settled, List.all_eq_true, List.mem_append, Bool.and_eq_true, beq_iff_eq] at h
+  refine ⟨fun r hr => ((h r (Or.inl hr)).2).symm, fun r hr => (h r (Or.inr (by simp [hr]))).2⟩
+
+theorem variant_post_le (s : State) (h : inv s = true) (hsc : inScope s = true) (hcov : covers s = true) :
+    variant (post s) ≤ variant s ∧ (s.new = none → variant (post s) < variant s) := by
+  have hcov' : limit s = s.replicas := by simpa [covers] using hcov
+  obtain ⟨nw, e1, e2, hc⟩ := post_summary s hsc
+  have hR := inv_replicas s h
+  have hok := inv_olds s h
+  have ho := sumSpec_nonneg hok
+  have cs := created_size s h
+  have tb := newTarget_between s (sumSpec s.olds) nw.spec (by omega)
+  have ro := reconcileOld_facts s s.olds nw hok
+  have ro0 := sumSpec_nonneg (reconcileOld_ok s s.olds nw hok)
+  have hpr : (post s).replicas = s.replicas := rfl
+  simp only [variant, oldTotal]
+  rcases hc with ⟨rn, hn, hol, hs, _⟩ | ⟨hn, hol, he⟩
+  · rw [hn, hol]
+    cases hnew : s.new with
+    | none => have := e2 hnew; simp only []; omega
+    | some r =>
+      have := e1 r hnew
+      refine ⟨?_, fun hh => absurd hh (by simp)⟩
+      simp only []; omega
+  · rw [hn, hol]
+    cases hnew : s.new with
+    | none => have := e2 hnew; simp only []; omega
+    | some r =>
+      have := e1 r hnew
+      refine ⟨?_, fun hh => absurd hh (by simp)⟩
+      simp only []; omega
+
+theorem variant_post_lt (s : State) (h : inv s = true) (hsc : inScope s = true) (hcov : covers s = true)
+    (hlive : cfgLive s = true) (hset : settled s = true) (hnf : final s = false) :
+    variant (post s) < variant s := by
+  have hcov' : limit s = s.replicas := by simpa [covers] using hcov
+  cases hnew : s.new with
+  | none => exact (variant_post_le s h hsc hcov).2 hnew
+  | some r =>
+    obtain ⟨nw, e1, e2, hc⟩ := post_summary s hsc
+    obtain ⟨st1, st2⟩ := settled_elim s hset
+    have hR := inv_replicas s h
+    have hok := inv_olds s h
+    have ho := sumSpec_nonneg hok
+    have tb := newTarget_between s (sumSpec s.olds) nw.spec (by omega)
+    have er := e1 r hnew
+    have hr := (rsOk_iff r).mp (inv_new s h r hnew)
+    have hu := maxUnavailV_bounds s h
+    have hsg := maxSurgeV_nonneg s h
+    have hfin : ¬ (r.spec = s.replicas ∧ sumSpec s.olds = 0) := by
+      intro hh
+      simp [final, hnew, hh.1, oldTotal, hh.2] at hnf
+    have hpr : (post s).replicas = s.replicas := rfl
+    simp only [variant, oldTotal, hnew]
+    rcases hc with ⟨rn, hn, hol, hs, _, _, hne⟩ | ⟨hn, hol, he⟩
+    · rw [hn, hol]; simp only []; omega
+    · rw [hn, hol]; simp only []
+      have ro0 := sumSpec_nonneg (reconcileOld_ok s s.olds nw hok)
+      by_cases hz : sumSpec s.olds = 0
+      · rw [hz, newTarget_zero_old] at he; omega
+      · have hM : 1 ≤ sumSpec s.olds + nw.spec - (s.replicas - maxUnavailV s) := by
+          by_cases hn1 : nw.spec = s.replicas
+          · omega
+          · unfold newTarget at he
+            simp only [hn1, if_false] at he
+            by_cases hn2 : nw.spec > s.replicas
+            · simp only [hn2, if_true] at he; omega
+            · simp only [hn2, if_false] at he
+              have := newRSNewReplicas_stuck s _ _ (by omega) (by omega) (by omega) he
+              have := live_budget s h hlive (by omega)
+              omega
+        have := reconcileOld_progress s s.olds nw hok st1 (by have := st2 r hnew; omega) (by omega)
+          (by omega) hM
+        omega
 
 end RV.DepSync
